@@ -1,0 +1,27 @@
+//go:build verif
+
+package async_disk
+
+// Contracts for the gvc verifier (/verif). Comment-only. The async_disk
+// constructors must meet exactly the contracts of the disk constructors (the
+// types are aliases, so the methods are the verified ones).
+
+//@ props C09
+
+//@ func NewMemDisk
+//@   requires numBlocks < 0x1000000000
+//@   requires forall r Int :: r >= brk ==> !held_w[r] && !held_r[r]
+//@   ensures [requested size] uint64(len(result.blocks)) == numBlocks
+//@   ensures [all blocks zero] forall b uint64, i uint64 :: b < numBlocks && i < 4096 ==> at(result.blocks, b, i) == 0
+//@   ensures [fresh storage and lock] fresh(result.blocks) && fresh(result.l) && result.l != nil
+//@   ensures [lock free] !held_w[ref(result.l)] && !held_r[ref(result.l)]
+
+//@ func NewFileDisk
+//@   requires [size fits a file offset] numBlocks <= 0x7ffffffffffff
+//@   requires [kernel invariant: file sizes are not negative] forall i Int :: ksize[i] >= 0
+//@   may_panic
+//@   ensures [errors are returned] result.1 == nil ==> fopen[result.0.fd] && result.0.numBlocks == numBlocks && fino[result.0.fd] == kdent[path] && kdent[path] != 0
+//@   ensures [exact size] result.1 == nil && kreg[kdent[path]] ==> ksize[kdent[path]] == int64(numBlocks * 4096)
+//@   ensures [retained prefix preserved] result.1 == nil && kreg[kdent[path]] && old(kdent)[path] != 0 ==> forall k int64 :: 0 <= k && k < old(ksize)[kdent[path]] && k < int64(numBlocks * 4096) ==> kdata[kdent[path]][k] == old(kdata)[kdent[path]][k]
+//@   ensures [new blocks read as zero] result.1 == nil && kreg[kdent[path]] && old(kdent)[path] != 0 ==> forall k int64 :: old(ksize)[kdent[path]] <= k && k < int64(numBlocks * 4096) ==> kdata[kdent[path]][k] == 0
+//@   modifies kdent, kreg, kdata, ksize, kddata, kdsize, fopen, fino
